@@ -1,4 +1,5 @@
 import Rbp.Proofs.OpReturn
+import Rbp.Proofs.RunSpec
 /-!
 # C16 — opreturn prints exactly the non-empty UTF-8 payloads, in chain order
 -/
@@ -33,6 +34,25 @@ theorem line_iff (ver : UInt8) (b : EBlock) (t : W.RTx) (o : W.ROut) :
 theorem lines_in_chain_order (ver : UInt8) (bs1 bs2 : List EBlock) :
     opreturnLines ver (bs1 ++ bs2) = opreturnLines ver bs1 ++ opreturnLines ver bs2 := by
   simp [opreturnLines]
+
+/-- **whole run.**  For a stored chain, `opreturn` exits 0, writes no file, and its stdout is exactly `opreturnLines` over the
+    delivered blocks: one line per output typed OP_RETURN with a non-empty payload, in chain order (`line_iff`,
+    `lines_in_chain_order`), each `height: <h padded to 9> txid: <txid>    data: <payload>` -/
+theorem opreturn_run_spec (o : Run.Opts) (key : Option W.Bytes) (kvs : List (W.Bytes × W.Bytes)) (files : List Run.BlkFile)
+    (coin : Run.Coin) (ld : Run.Loaded) (hcoin : Run.coinOf o.coin = some coin) (hld : Run.loadIndex o kvs = .ok ld)
+    (hkey : key ≠ some []) (sz : Nat → Nat) (blk : Nat → W.Block)
+    (hs : ∀ k, o.start ≤ k → k < o.start + (ld.maxH + 1 - o.start) →
+      Run.Stored coin key (files.filterMap fun f => (Run.parseBlkIndex f.name).map fun n => (n, f)) ld.trimmed k (sz k) (blk k) ∧
+      (o.verify = true → Run.verifyBlock coin ld.trimmed (blk k).toR k = .ok ()))
+    (hne : o.start ≤ ld.maxH) (hcb : o.callback = "opreturn") :
+    (Run.run o key kvs files).exit = 0 ∧ (Run.run o key kvs files).files = [] ∧
+    (Run.run o key kvs files).stdout = opreturnLines coin.version
+      ((List.range' o.start (ld.maxH + 1 - o.start)).map (fun k => (⟨k, sz k, (blk k).toR⟩ : EBlock))) := by
+  obtain ⟨h0, _, hf, ho⟩ := Run.run_stored o key kvs files coin ld hcoin hld hkey sz blk hs hne
+    (by simp [Run.callbackPanics, hcb])
+  refine ⟨h0, ?_, ?_⟩
+  · rw [hf]; simp only [Run.callbackOut, hcb]
+  · rw [ho]; simp only [Run.callbackOut, hcb]
 
 /-- non-vacuity: the 76..80 byte range needs PUSHDATA1 and is well-formed there, not as a direct push -/
 example : (T.Tok.push .pd1 (List.replicate 80 0x41)).WF ∧ ¬ (T.Tok.push .direct (List.replicate 80 0x41)).WF := by
